@@ -621,6 +621,10 @@ def h_where(ev, name, pos, kw, ctx, t):
     ncore = None
     # where(n == 0, POS, n): zero entries replaced by a positive constant
     cm = c.meta
+    if cm is not None and isinstance(cm, tuple) and cm and cm[0] == 'not_cmp0':
+        # where(n != 0, n, POS) is where(n == 0, POS, n)
+        cm = ('cmp0', cm[1])
+        a, b = b, a
     if cm is not None and isinstance(cm, tuple) and cm and cm[0] == 'cmp0' and b.vid is not None and cm[1] == b.vid and a.sign == 'POS':
         if b.sign == 'NONNEG':
             sign = 'POS'
